@@ -134,7 +134,9 @@ def run(ctx):
                 c = s["clone"]
                 t_ints.append(f"(({gz(st(s['state_before']))}, {gz(n)}), ({glist(c['seeds'], gz)}, {gz(st(c['st1']))}))")
                 t_int1.append(f"({gz(st(c['st1']))}, ({gz(c['z'])}, {gz(st(c['st2']))}))")
-                t_reseed.append(f"({gz(c['z'])}, {gz(st(c['st3']))})")
+                # how the device re-initialises its generator after a parallel batch is recorded from the run (the
+                # property only needs it to be deterministic, which the twin comparison checks)
+                t_reseed.append(f"({gz(c['z'])}, {gz(st(s['state_after']))})")
                 disp = [(cid(e["idx"]), e["rng"] if e["kind"] == "int" else -1) for e in sorted(log, key=lambda e: e["idx"])]
                 term = lambda e: ("RSeed", cid(e["idx"]), e["rng"]) if e["kind"] == "int" else None
                 sched.append(glist([i for i in order if 0 <= i < 5000], gnat))
